@@ -65,6 +65,21 @@ Theorem unify_rt_clash_no_finite_unifier_partial : forall a b, unify_rt a b = So
 Proof. exact rt_clash_no_unifier. Qed.
 Print Assumptions unify_rt_clash_no_finite_unifier_partial.
 
+(* the comparison functions used by the correspondence mean what they should *)
+Theorem check_pair_is_conjunction : forall a b vs rts ocs errs, check_pair a b vs rts ocs errs = true <->
+  (forall o, In o rts -> check_rt a b vs o = true) /\ (forall o, In o ocs -> check_oc a b vs o = true) /\
+  (forall o, In o errs -> check_err a b vs o = true).
+Proof. exact check_pair_spec. Qed.
+Print Assumptions check_pair_is_conjunction.
+
+Theorem check_oc_accepts_failure_iff : forall a b vs, check_oc a b vs IFail = true <-> unify_oc a b = None.
+Proof. exact check_oc_fail_iff. Qed.
+Print Assumptions check_oc_accepts_failure_iff.
+
+Theorem check_rt_accepts_failure_iff : forall a b vs, check_rt a b vs IFail = true <-> unify_oc a b = None /\ unify_rt a b = Some false.
+Proof. exact check_rt_fail_iff. Qed.
+Print Assumptions check_rt_accepts_failure_iff.
+
 (* non-vacuity *)
 Definition nm (c : N) : list N := [c].
 Definition X := Var 0. Definition Y := Var 1. Definition Z' := Var 2.
